@@ -290,6 +290,24 @@ CHECKS['C19'] = dict(
     note=COMMON_NOTE + 'PIL decoding/resampling and the normalisation arithmetic are runtime behaviour: for binned / normalised images the processed image is recomputed with PIL in the harness and only its placement is checked; dask scheduling and HDF5 storage are not modelled.',
     ref='§5 C19')
 
+CHECKS['C20'] = dict(
+    technique='Lean 4 frame / history-independence / refusal theorems over an op-level model (API calls as traces of storage primitives) + runtime tracing of h5py write entry points, SHA-256 and canonical-dump correspondence',
+    text=('Theorems (Usid/Properties/C20.lean): for EVERY sequence, of any length, of read-side calls (incl. sort '
+          'toggles) whose traces contain no primitive that needs a writable file, the file is exactly what it was, in '
+          'read-only and writable mode alike, nothing raises, and every call returns what a fresh wrapper of the '
+          'unchanged file with flag = initial flag xor parity(earlier toggles) returns (read_frame, '
+          'history_independent_reads, by induction over the sequence); a call that reaches a modifying primitive or '
+          'the library\'s own writability guard raises on a read-only file and leaves it unchanged (write_refused); on '
+          'a read-only file no history at all changes the file (ro_never_changes); on a writable file a modifying call '
+          'does change it (rw_write_changes). The premise - which primitives each of the 24 read-side and 13 write-side '
+          'entry points emits - is OBSERVED on every run by tracing h5py\'s modifying entry points and compared with '
+          'the model\'s kind table. Correspondence / oracle: generator files opened r and r+, random call sequences; '
+          'after every call SHA-256 of the file (r) and a canonical dump of all datasets and attributes (both modes) vs '
+          'the initial ones; every result recomputed on a fresh handle and wrapper; every write-side entry point on a '
+          'read-only handle (alone and inside read sequences) and on a writable one.'),
+    note=COMMON_NOTE + 'partial by nature: that the Python read paths call no h5py write API is observed by tracing on the generated inputs, not proved about the source; the Lean theorems are conditional on that observation and say so.',
+    ref='§5 C20')
+
 REASON_PENDING = 'check not built yet in this round (planned: Lean model + theorems + correspondence, see DESIGN.md §5)'
 
 
